@@ -485,6 +485,12 @@ def transform_fn(text, spec):
             if sh.bopen < mm.start() < sh.bclose:
                 edits.append((mm.start(), mm.end(), ''))
 
+    # R1 (const lifetime): a function-local `const X: &str = ..` needs its elided lifetime spelled out for Verus
+    if not spec.get('plain'):
+        for mm in re.finditer(r'\bconst\s+[A-Za-z_][A-Za-z0-9_]*\s*:\s*(&)\s*str\b', m):
+            if sh.bopen < mm.start() < sh.bclose:
+                edits.append((mm.end(1), mm.end(1), "'static "))
+
     # R2: named return + contract
     sig = spec.get('sig') or ''
     retname = spec.get('retname', 'ret')
